@@ -151,7 +151,7 @@ def real_proj(ex):
     active = sorted((short(k[0]), short(k[1])) for k in stg.processed_nodes.data if isinstance(k, tuple))
     sw = {short(k): short(v.node_id) for k, v in stg.switch_results.data.items()}
     fut2task = {}
-    for t in asyncio.all_tasks(loop):
+    for t in asyncio.all_tasks(getattr(loop, '_loop', loop)):
         fw = getattr(t, '_fut_waiter', None)
         if fw is not None:
             fut2task[id(fw)] = t
@@ -355,6 +355,249 @@ def replay_graph(prog, inst=None, max_paths=100000, collect=False, finish=True, 
                         ex.stuck = True
             finally:
                 rp.stop(ex)
+            if collect:
+                out['traces'].append({'lines': ex.rt.lines, 'schedule': [list(s) for s in ex.schedule]})
+    return out
+
+
+# ------------------------------------------------------------------------------------------------------------
+# several runs of one chart on one loop (spec/Engine2.tla)
+# ------------------------------------------------------------------------------------------------------------
+
+def export_graph2(inst, timeout=1800):
+    st = model.check_instance2(inst, cfg=model.ENGINE2_CFG + 'ACTION_CONSTRAINT Export2\n', workers=1, timeout=timeout)
+    states = {}
+    edges = collections.defaultdict(list)
+    for line in st['out'].splitlines():
+        if not line.startswith('<<"EDGE"'):
+            continue
+        m = re.match(r'^<<"EDGE", (".*")>>$', line.strip())
+        if not m:
+            continue
+        rec = json.loads(json.loads(m.group(1)))
+        sk = json.dumps(rec['s'], sort_keys=True)
+        dk = json.dumps(rec['d'], sort_keys=True)
+        states.setdefault(sk, rec['s'])
+        states.setdefault(dk, rec['d'])
+        lab = tuple(rec['a'])
+        if (lab, dk) not in edges[sk]:
+            edges[sk].append((lab, dk))
+    dsts = {d for v in edges.values() for _, d in v}
+    roots = [k for k in edges if k not in dsts]
+    return (roots[0] if len(roots) == 1 else None), states, edges, st
+
+
+def _coarse(p):
+    return {'phase': 'draining', 'done': p['done'], 'res': p['res'], 'sw': p['sw']}
+
+
+def model_proj2(s):
+    runs = {}
+    quiet = set()
+    for i, ms in enumerate(s['m'], 1):
+        p = model_proj(dict(ms, ready=[]))
+        p.pop('ready')
+        if i not in s['started']:
+            p = {'phase': 'unstarted'}
+        elif p['done'] != 'pending' or p['phase'] == 'draining':
+            quiet.add(i)
+            p = _coarse(p)
+        runs[str(i)] = p
+    ready = []
+    for r, t in s['ready']:
+        tasks = s['m'][r - 1]['tasks']
+        if r in quiet:
+            ready.append('%d:*' % r)
+        else:
+            ready.append('%d:%s%s' % (r, 'timer' if t < 0 else tasks[t - 1]['name'], '!' if t > 0 and tasks[t - 1]['mustcancel'] else ''))
+    return {'runs': runs, 'ready': _sort_quiet(ready)}
+
+
+def _sort_quiet(ready):
+    out = []
+    run = []
+    for x in ready:
+        if x.endswith('!') or x.endswith('*'):
+            run.append(x)
+        else:
+            out += sorted(run) + [x]
+            run = []
+    return out + sorted(run)
+
+
+def real_proj2(ex):
+    loop = ex.loop
+    nruns = len(ex.rt.runs)
+    runs = {}
+    quiet = set()
+    bymain = {}
+    for mgr in Capture.managers:
+        for r, inp in ex.inputs.items():
+            if mgr.ctx.input_kwargs is inp:
+                bymain[r] = mgr
+    saved = list(Capture.managers)
+    for r in range(1, nruns + 1):
+        if r not in ex.main:
+            runs[str(r)] = {'phase': 'unstarted'}
+            continue
+        Capture.managers[:] = [bymain[r]] if r in bymain else []
+        sub = _RunView(ex, r)
+        p = real_proj(sub)
+        p.pop('ready')
+        if p['done'] != 'pending' or p['phase'] == 'draining':
+            quiet.add(r)
+            p = _coarse(p)
+        runs[str(r)] = p
+    Capture.managers[:] = saved
+    ready = []
+    for o in loop.ready_owners():
+        if isinstance(o, asyncio.Task):
+            r = o.get_context().get(rtm.CUR_RUN, 0)
+            ready.append('%d:*' % r if r in quiet else '%d:%s%s' % (r, tname(o.get_name()), '!' if o.cancelling() else ''))
+        else:
+            ready.append('0:timer')
+    return {'runs': runs, 'ready': _sort_quiet(ready)}
+
+
+class _RunView:
+    """the part of an Execution that belongs to one run (for real_proj)"""
+
+    def __init__(self, ex, r):
+        self.loop = _LoopView(ex.loop, r)
+        self.main = {1: ex.main[r]}
+
+
+class _LoopView:
+    def __init__(self, loop, r):
+        self._loop = loop
+        self._r = r
+
+    def ready_owners(self):
+        return []
+
+    def pending_gates(self):
+        return [g for g in self._loop.pending_gates() if (g.info or (0,))[0] == self._r]
+
+    def pending_timers(self):
+        return self._loop.pending_timers()
+
+    def __getattr__(self, k):
+        return getattr(self._loop, k)
+
+
+def replay_graph2(prog, overlap=True, max_paths=100000, collect=False):
+    """as replay_graph, for all runs of prog on one chart and one loop"""
+    driver.install_fake_pools()
+    inst = model.export_instance(prog, overlap=overlap)
+    init, states, edges, st = export_graph2(inst)
+    viol = sorted(set(re.findall(r'Invariant (\w+) is violated', st['out'])))
+    out = {'states': len(states), 'transitions': sum(len(v) for v in edges.values()), 'replayed': 0, 'paths': 0,
+           'divergence': None, 'model_invariants_violated': viol, 'traces': [],
+           'tlc': {k: st.get(k) for k in ('distinct', 'generated', 'wall_s')}}
+    if init is None:
+        out['divergence'] = {'what': 'no unique initial state in the exported graph', 'tlc_tail': st['out'][-800:]}
+        return out
+    mcls = make_manager_cls()
+    parent = {init: None}
+    order = [init]
+    q = collections.deque([init])
+    while q:
+        s = q.popleft()
+        for lab, d in edges.get(s, ()):
+            if d not in parent:
+                parent[d] = (s, lab)
+                order.append(d)
+                q.append(d)
+    covered = set()
+    drift = False
+
+    def all_tasks_in_run(ex):
+        return asyncio.all_tasks(ex.loop)
+
+    for s0 in order:
+        for lab0, d0 in edges.get(s0, ()):
+            if (s0, lab0, d0) in covered:
+                continue
+            if out['paths'] >= max_paths:
+                return out
+            out['paths'] += 1
+            Capture.managers.clear()
+            ex = driver.Execution(prog, overlap=overlap, manager_cls=mcls)
+            ctx = driver.running(ex.loop)
+            ctx.__enter__()
+            try:
+                ex.start_run(1)
+                x = s0
+                chain = []
+                while parent[x] is not None:
+                    chain.append((parent[x][0], parent[x][1], x))
+                    x = parent[x][0]
+                chain.reverse()
+                walk = chain + [(s0, lab0, d0)]
+                i = 0
+                cur = s0
+                hist = []
+                while True:
+                    if i < len(walk):
+                        src, lab, dst = walk[i]
+                    else:
+                        nxt = [(lab, d) for lab, d in edges.get(cur, ()) if (cur, lab, d) not in covered] or list(edges.get(cur, ()))[:1]
+                        if not nxt:
+                            break
+                        src, (lab, dst) = cur, nxt[0]
+                    err = None
+                    if lab[0] == 'step':
+                        if not ex.loop.has_ready():
+                            err = 'no ready handle'
+                        else:
+                            ex.apply(('step',))
+                    elif lab[0] == 'fire':
+                        c = [o for o in ex.options() if o[0] == 'fire' and o[2] == lab[1] and o[1] == lab[2]]
+                        if c:
+                            ex.apply(c[0])
+                        else:
+                            err = 'no pending gate %s of run %s' % (lab[2], lab[1])
+                    elif lab[0] == 'start':
+                        ex.apply(('start', lab[1]))
+                    hist.append(list(lab))
+                    if not drift:
+                        mp = model_proj2(states[dst])
+                        rpj = real_proj2(ex)
+                        if err or mp != rpj:
+                            drift = True
+                            d = {k: [mp.get(k), rpj.get(k)] for k in ('ready',) if mp.get(k) != rpj.get(k)}
+                            for r in mp['runs']:
+                                if mp['runs'][r] != rpj['runs'].get(r):
+                                    d['run' + r] = {k: [mp['runs'][r].get(k), rpj['runs'].get(r, {}).get(k)]
+                                                    for k in set(mp['runs'][r]) | set(rpj['runs'].get(r, {}))
+                                                    if mp['runs'][r].get(k) != rpj['runs'].get(r, {}).get(k)}
+                            out['divergence'] = {'after': hist[-25:], 'step': len(hist), 'error': err, 'diff (model, real)': d}
+                        else:
+                            covered.add((src, lab, dst))
+                            out['replayed'] = len(covered)
+                    else:
+                        covered.add((src, lab, dst))
+                    if drift and err:
+                        break
+                    cur = dst
+                    i += 1
+                    if len(hist) > 4000:
+                        break
+                if drift or len(ex.returned) < len(ex.rt.runs):
+                    pol = driver.EagerPolicy(())
+                    while len(ex.returned) < len(ex.rt.runs) and ex.actions < 8000:
+                        opts = ex.options()
+                        if not ex.loop.has_ready():
+                            ex.quiescent_line()
+                        if not opts:
+                            ex.stuck = True
+                            break
+                        ex.apply(pol.choose(ex, opts))
+            finally:
+                try:
+                    ex.post_run()
+                finally:
+                    ctx.__exit__(None, None, None)
             if collect:
                 out['traces'].append({'lines': ex.rt.lines, 'schedule': [list(s) for s in ex.schedule]})
     return out
